@@ -378,6 +378,17 @@ func (e *Engine) modOfInstr(f *ssa.Function, ins ssa.Instruction) []string {
 }
 
 func (e *Engine) computeMods() {
+	// raw analysis (what the code may write, ignoring `pure` contracts): used to CHECK pure/assigns
+	e.ignorePure = true
+	e.computeModsPass()
+	e.rawMod = e.modCache
+	// analysis used at call sites: a callee with a `pure` contract writes no pre-existing memory
+	// (that contract is checked against the raw analysis when the callee itself is verified)
+	e.ignorePure = false
+	e.computeModsPass()
+}
+
+func (e *Engine) computeModsPass() {
 	e.modCache = map[*ssa.Function]*ModInfo{}
 	var fns []*ssa.Function
 	for fn := range e.allFuncs {
@@ -392,7 +403,7 @@ func (e *Engine) computeMods() {
 		for _, fn := range fns {
 			mi := e.modCache[fn]
 			pureSpec := false
-			if sp := e.Specs.Funcs[fnKey(fn)]; sp != nil && sp.Pure {
+			if sp := e.Specs.Funcs[fnKey(fn)]; sp != nil && sp.Pure && !e.ignorePure {
 				pureSpec = true // writes no pre-existing memory: checked by the frame obligations of that function
 			}
 			add := func(set map[string]bool, n string) {
@@ -466,4 +477,15 @@ func (e *Engine) pureInvoke(full string) bool {
 		return true
 	}
 	return false
+}
+
+// rawModInfo: MOD analysis that does not trust `pure` contracts (used to check them)
+func (e *Engine) rawModInfo(fn *ssa.Function) *ModInfo {
+	if o := fn.Origin(); o != nil && e.rawMod[fn] == nil {
+		fn = o
+	}
+	if mi, ok := e.rawMod[fn]; ok {
+		return mi
+	}
+	return &ModInfo{Exist: map[string]bool{"*": true}, Fresh: map[string]bool{}}
 }
